@@ -84,23 +84,38 @@ Definition decide_mutes (now : Z) (olds news : list silence) (nv : Z) : centry *
       (mkCE nv ids, MOk (match act with [] => false | _ => true end) act)
   end.
 
-Definition mutes (x : ext) (S : store) (now : Z) (C : cache) (ls : labels) : cache * mout :=
-  let e := C ls in
-  let upto := ce_ver e =? ver S in
+(* Mutes, with the store as each of its atomic steps sees it. Between the steps the Silencer holds no lock, so store
+   operations of other goroutines may land there:  cache read (Cr) | Version() read (Sv) | Query of the cached ids (So) |
+   QSince query (Sn) | state evaluation + cache write (Cw, the cache as it is by then).  One clock value [now] for the
+   reads and the evaluation. *)
+Definition mutes_at (x : ext) (now : Z) (Cr : cache) (Sv So Sn : store) (Cw : cache) (ls : labels) : cache * mout :=
+  let e := Cr ls in
+  let upto := ce_ver e =? ver Sv in
   match ce_ids e, upto with
-  | [], true => (C, MOk false [])
+  | [], true => (Cw, MOk false [])
   | ids, _ =>
-      match read_old x S now ids with
-      | None => (C, MPanic)
+      match read_old x So now ids with
+      | None => (Cw, MPanic)
       | Some olds =>
-          match (if upto then Some ([], ce_ver e) else read_new x S now (ce_ver e) ls) with
-          | None => (C, MPanic)
+          match (if upto then Some ([], ce_ver e) else read_new x Sn now (ce_ver e) ls) with
+          | None => (Cw, MPanic)
           | Some (news, nv) =>
               let '(e', r) := decide_mutes now olds news nv in
-              (cache_set C ls e', r)
+              (cache_set Cw ls e', r)
           end
       end
   end.
+
+(* the uninterrupted call *)
+Definition mutes (x : ext) (S : store) (now : Z) (C : cache) (ls : labels) : cache * mout :=
+  mutes_at x now C S S S C ls.
+
+(* where store operations are injected into one Mutes call (the yield points of silence.go, by the step they precede) *)
+Inductive ipoint :=
+| IAfterCacheRead      (* "mutes:after-cache-read": before the Version() read *)
+| IAfterVersionRead    (* "mutes:after-version-read" / "mutes:before-old-query" *)
+| IAfterOldQuery       (* "mutes:after-old-query" / "mutes:before-new-query" *)
+| IAfterNewQuery.      (* "mutes:after-new-query" / "mutes:before-cache-write" *)
 
 (* ---------- MuteStage.Exec with the Silencer as muter: Mutes for every alert in order, muted ones dropped ---------- *)
 
@@ -148,6 +163,7 @@ Inductive cop :=
 | CStore (o : op)                 (* Set / Expire / Merge / GC / Query / API calls on the store *)
 | CReload (order : list string)   (* restart: snapshot -> silence.New + a NEW Silencer (empty cache), as app.Run does *)
 | CMutes (ls : labels)
+| CMutesI (ls : labels) (pt : ipoint) (ops : list op)   (* Mutes with store operations landing inside the call *)
 | CApi (ls : labels)              (* status for GET /alerts: fresh marker + Mutes *)
 | CStage (alerts : list labels)   (* MuteStage.Exec on a batch *)
 | CAlertGC (fps : list labels)    (* provider GC -> Silencer.PostGC *)
@@ -156,6 +172,7 @@ Inductive cop :=
 Inductive cout :=
 | XStore (o : out)
 | XMutes (r : mout) (cver : Z) (cids : list string)   (* verdict + the cache entry of that label set afterwards *)
+| XMutesI (r : mout) (cver : Z) (cids : list string) (outs : list out)
 | XApi (ids : option (list string))
 | XStage (kept : option (list labels))
 | XEntries (es : list (Z * list string))   (* the cache entries of the collected alerts after the eviction *)
@@ -173,6 +190,16 @@ Definition cstep (c : cfg) (x : ext) (SC : store * cache) (now : Z) (o : cop) : 
       | (S', y) => ((S', C), XStore y)
       end
   | CMutes ls => let '(C', r) := mutes x S now C ls in ((S, C'), XMutes r (ce_ver (C' ls)) (ce_ids (C' ls)))
+  | CMutesI ls pt ops =>
+      let '(S1, outs) := run c x S (map (fun o => (now, o)) ops) in
+      let '(C', r) :=
+        match pt with
+        | IAfterCacheRead => mutes_at x now C S1 S1 S1 C ls
+        | IAfterVersionRead => mutes_at x now C S S1 S1 C ls
+        | IAfterOldQuery => mutes_at x now C S S S1 C ls
+        | IAfterNewQuery => mutes_at x now C S S S C ls
+        end in
+      ((S1, C'), XMutesI r (ce_ver (C' ls)) (ce_ids (C' ls)) outs)
   | CApi ls => let '(C', r) := api_silenced_by x S now C ls in ((S, C'), XApi r)
   | CStage alerts => let '(C', r) := mute_stage x S now C alerts in ((S, C'), XStage r)
   | CAlertGC fps => ((S, alert_gc C fps), XEntries (map (fun k => (ce_ver (alert_gc C fps k), ce_ids (alert_gc C fps k))) fps))
